@@ -212,6 +212,15 @@ Section Ciar.
     else if lb then mkR l PosInf true (beq l PosInf)
     else mkR NegInf r (beq r NegInf) true.
 
+  (* how checkInAnyRange combines the mark of the middle rectangle (already OR-ed into the initial mask: [res]) with
+     the marks of the left-bound and right-bound recursions, including the early exits on a complete mark.
+     checkRangeRightBound is the last step: repaired it returns res1 OR mrb, today it returns mrb alone. *)
+  Definition ciar_combine (lb rb : bool) (res mlb mrb : mark) : mark :=
+    if complete res then res else
+    let res1 := if lb then mor res mlb else res in
+    if lb && complete res1 then res1 else
+    if rb then (if v_rb_res V then mor res1 mrb else mrb) else res1.
+
   (* L, R, tys: the part of the left key, right key and column types from position prefixSize on;
      pre: rgs[0..prefixSize) *)
   Fixpoint ciar (tys : list bool) (L R : list bound) (lb rb : bool) (pre : list range) {struct L} : mark :=
@@ -223,17 +232,12 @@ Section Ciar.
           match L' with
           | [] => cb (pre ++ [last_range l r lb rb])
           | _ :: _ =>
-              let m := cb (pre ++ mid_range ty l r lb rb :: wholes (length L')) in
-              let res := mor init_mask m in
-              if complete res then res else
-              let res1 :=
-                if lb then mor res (ciar tys' L' R' true false (pre ++ [point (if rb then l else shift_l ty l)]))
-                else res in
-              if lb && complete res1 then res1 else
-              if rb then
-                let mk := ciar tys' L' R' false true (pre ++ [point (if lb then r else shift_r ty r)]) in
-                if v_rb_res V then mor res1 mk else mk
-              else res1
+              let res := mor init_mask (cb (pre ++ mid_range ty l r lb rb :: wholes (length L'))) in
+              let mlb := if lb then ciar tys' L' R' true false (pre ++ [point (if rb then l else shift_l ty l)])
+                         else init_mask in
+              let mrb := if rb then ciar tys' L' R' false true (pre ++ [point (if lb then r else shift_r ty r)])
+                         else init_mask in
+              ciar_combine lb rb res mlb mrb
           end
     | _, _, _ => cb pre
     end.
